@@ -11,7 +11,9 @@
 
     Priorities are an input: node creation consumes the next element of a list given to the machine.
     remove_at hands out the ITEM of the split-out node; the machine shows that item as a whole ([ORemoved x]) and
-    can give the same item back to insert_at ([Move]), as a caller that moves an element does.
+    can give the same item back to insert_at ([Move]), as a caller that moves an element does — possibly after
+    modifying it ([Move i k j k2 ms]: move-and-update), so that the item enters the treap with a pending tag.
+    [FromItem x] / [InsertAt i k x] take ANY item, in particular a freshly made one that was modified before.
     Positions and sizes are [Z] ([usize] in the code; no operation here can overflow).
     Definitions only; proofs are in Proofs*.v. *)
 From Coq Require Import ZArith List Bool.
@@ -42,7 +44,16 @@ Definition take2 (i j : nat) (l : list X) : option (X * X * list X) :=
   end.
 Definition take1 (i : nat) (l : list X) : option (X * list X) :=
   match nth_error l i with Some a => Some (a, remove_nth i l) | None => None end.
+(** Positions are [Z] ([usize] in the code: up to 2^64-1).  [zfirstn k l = firstn (Z.to_nat k) l], [zskipn k l =
+    skipn (Z.to_nat k) l], [znth k l = nth_error l (Z.to_nat k)] (Proofs.v: zfirstn_eq, zskipn_eq, znth_eq), written so
+    that evaluation never builds a unary number larger than the length of the list. *)
+Definition zfirstn (k : Z) (l : list X) : list X := firstn (Z.to_nat (Z.min k (Z.of_nat (length l)))) l.
+Definition zskipn (k : Z) (l : list X) : list X := skipn (Z.to_nat (Z.min k (Z.of_nat (length l)))) l.
+Definition znth (k : Z) (l : list X) : option X := if k <? Z.of_nat (length l) then nth_error l (Z.to_nat k) else None.
 End Plumbing.
+Arguments zfirstn : simpl never.
+Arguments zskipn : simpl never.
+Arguments znth : simpl never.
 
 (** ---------- what one operation of the machine shows ----------
     [OInvalid]: the operation named a treap that is not live (skipped). [OPanic]: remove_at out of range.
@@ -193,6 +204,9 @@ Definition remove_at (t : tree) (pos : Z) : tree * option T :=
 
 Definition tsize (t : tree) : Z := osize (item t).
 
+(** a caller applying modifications to an item it holds (not yet / no longer inside a treap), in order *)
+Definition mods (ms : list M) (x : T) : T := fold_left (fun y m => modify m y) ms x.
+
 (** root_mut().map(|r| r.modify(m)) *)
 Definition modify_root (m : M) (t : tree) : tree :=
   match t with E => E | Nd l x p r => Nd l (modify m x) p r end.
@@ -202,9 +216,11 @@ Inductive op :=
 | New | FromItem (x : T) | Merge (i j : nat) | SplitAt (i : nat) (k : Z) | SplitBy (i : nat) (q : V -> bool)
 | InsertAt (i : nat) (k : Z) (x : T) | RemoveAt (i : nat) (k : Z) | ModifyRoot (i : nat) (m : M)
 | First (i : nat) | Last (i : nat) | Collect (i : nat) | Size (i : nat) | RootAgg (i : nat)
-(** [Move i k j k2]:  let x = treaps[i].remove_at(k); treaps[j].insert_at(k2, x)  — the item OBJECT that remove_at
-    returned is inserted as it is (i = j allowed); skipped when i or j is not live *)
-| Move (i : nat) (k : Z) (j : nat) (k2 : Z).
+(** [Move i k j k2 ms]:  let mut x = treaps[i].remove_at(k); x.modify(m) for m in ms; treaps[j].insert_at(k2, x)
+    — the item OBJECT that remove_at returned is inserted (as it is when [ms = []]; with a pending tag otherwise:
+    move-and-update); i = j allowed; skipped when i or j is not live.  The output is the item as remove_at
+    returned it (before the modifications). *)
+| Move (i : nat) (k : Z) (j : nat) (k2 : Z) (ms : list M).
 
 Definition next_prio (ps : list Z) : Z * list Z :=
   match ps with p :: ps' => (p, ps') | [] => (0, []) end.
@@ -269,7 +285,7 @@ Definition step (st : list tree) (ps : list Z) (o : op) : list tree * list Z * @
     | Some t => (st, ps, OAgg (option_map agg (item t)))
     | None => (st, ps, OInvalid)
     end
-  | Move i k j k2 =>
+  | Move i k j k2 ms =>
     match nth_error st i, nth_error st j with
     | Some t, Some _ =>
       let '(t', res) := remove_at t k in
@@ -278,7 +294,7 @@ Definition step (st : list tree) (ps : list Z) (o : op) : list tree * list Z * @
       | None => (st1, ps, OPanic)           (* remove_at panicked: nothing is inserted *)
       | Some x =>
         match nth_error st1 j with
-        | Some u => let '(p, ps') := next_prio ps in (replace_nth j (insert_at u k2 x p) st1, ps', ORemoved x)
+        | Some u => let '(p, ps') := next_prio ps in (replace_nth j (insert_at u k2 (mods ms x) p) st1, ps', ORemoved x)
         | None => (st1, ps, OInvalid)       (* not reachable: [replace_nth] keeps the length *)
         end
       end
@@ -308,6 +324,8 @@ Definition run_final (ps : list Z) (ops : list op) : list tree := fst (fst (run 
 (** ---------- the list-of-lists specification (does not mention trees) ---------- *)
 Variable act : M -> V -> V.             (* what a modification does to one element *)
 Variable aggf : list V -> A.            (* the fold that an aggregate is supposed to equal *)
+(** modifications applied to one element, in order *)
+Definition acts (ms : list M) (v : V) : V := fold_left (fun v m => act m v) ms v.
 
 Fixpoint take_while (q : V -> bool) (l : list V) : list V :=
   match l with [] => [] | x :: xs => if q x then x :: take_while q xs else [] end.
@@ -331,7 +349,7 @@ Definition sstep (st : list (list V)) (o : op) : option (list (list V) * @output
     end
   | SplitAt i k =>
     match take1 i st with
-    | Some (xs, rest) => Some (rest ++ [firstn (Z.to_nat k) xs; skipn (Z.to_nat k) xs], OUnit)
+    | Some (xs, rest) => Some (rest ++ [zfirstn k xs; zskipn k xs], OUnit)
     | None => Some (st, OInvalid)
     end
   | SplitBy i q =>
@@ -342,13 +360,13 @@ Definition sstep (st : list (list V)) (o : op) : option (list (list V) * @output
     end
   | InsertAt i k x =>
     match nth_error st i with
-    | Some xs => Some (replace_nth i (firstn (Z.to_nat k) xs ++ elem x :: skipn (Z.to_nat k) xs) st, OUnit)
+    | Some xs => Some (replace_nth i (zfirstn k xs ++ elem x :: zskipn k xs) st, OUnit)
     | None => Some (st, OInvalid)
     end
   | RemoveAt i k =>
     match nth_error st i with
     | Some xs =>
-      match nth_error xs (Z.to_nat k) with
+      match znth k xs with
       | Some v => Some (replace_nth i (firstn (Z.to_nat k) xs ++ skipn (S (Z.to_nat k)) xs) st, ORemoved v)
       | None => Some (st, OPanic)
       end
@@ -372,14 +390,14 @@ Definition sstep (st : list (list V)) (o : op) : option (list (list V) * @output
     | Some xs => Some (st, OAgg (match xs with [] => None | _ => Some (aggf xs) end))
     | None => Some (st, OInvalid)
     end
-  | Move i k j k2 =>
+  | Move i k j k2 ms =>
     match nth_error st i, nth_error st j with
     | Some xs, Some _ =>
-      match nth_error xs (Z.to_nat k) with
+      match znth k xs with
       | Some v =>
         let st1 := replace_nth i (firstn (Z.to_nat k) xs ++ skipn (S (Z.to_nat k)) xs) st in
         match nth_error st1 j with
-        | Some ys => Some (replace_nth j (firstn (Z.to_nat k2) ys ++ v :: skipn (Z.to_nat k2) ys) st1, ORemoved v)
+        | Some ys => Some (replace_nth j (zfirstn k2 ys ++ acts ms v :: zskipn k2 ys) st1, ORemoved v)
         | None => Some (st1, OInvalid)
         end
       | None => Some (st, OPanic)
